@@ -433,20 +433,20 @@ for _p in ('C06', 'C10', 'C02'):
 
 # ---- what the families added after the first build contribute (kept next to the registrations above; goes into the evidence text)
 _ALSO = {
-    'C01': 'handlers registered while the program runs (required / optional / forbidden deliveries by registration instant), one function object registered on several buses / patterns, same-name buses, awkward exception classes (unhashable, two-argument, chained)',
-    'C02': 'timeout programs (handlers that need time to unwind, forwards to a second bus, blocking sync siblings); the F1 exception applies only when the bus\'s own run loop had taken the overtaken event',
-    'C03': 'handlers registered late, events awaited by several parties, deep fire-and-forget chains under tiny history limits',
+    'C01': 'handlers registered while the program runs (required / optional / forbidden deliveries by registration instant), one function object registered on several buses / patterns, same-name buses, awkward exception classes (unhashable, two-argument, chained); generous (never expiring) timeouts on event objects created long before their dispatch, zero / negative timeouts (an async handler cut before its first step counts as a delivery cut at once)',
+    'C02': 'timeout programs (handlers that need time to unwind, forwards to a second bus, blocking sync siblings); the F1 exception applies only when the bus\'s own run loop had taken the overtaken event; stop() programs (another bus stopped / cleared mid-handler)',
+    'C03': 'handlers registered late, events awaited by several parties, deep fire-and-forget chains under tiny history limits, zero / negative / never-expiring event timeouts',
     'C04': 'children awaited through asyncio.gather helper tasks, awaited twice / by siblings / although dispatched by top-level code, explicit parents',
     'C05': 'stop() programs with long in-handler awaits; every dequeue records whether the drain\'s awaited event was already complete (F0 covers only entries taken before that)',
     'C07': 're-dispatch of the same object to the same and to other buses (reach set and path re-evaluated), buses created under one requested name, forwarding under small history limits',
     'C08': 'every complete event re-observed and awaited from a SECOND event loop after the first one was closed; accessor calls on completed events; timeout programs',
-    'C09': 'events dispatched from the cancellation clean-up of timed-out handlers, explicit parents, handlers registered late',
-    'C10': 'forwards to a second (parallel) bus, blocking sync siblings (deadline window, delivery delayed by blocking stretches), clean-up dispatch, user-raised TimeoutError',
+    'C09': 'events dispatched from the cancellation clean-up of timed-out handlers, explicit parents, handlers registered late, event objects constructed before the program starts and dispatched by a handler later',
+    'C10': 'forwards to a second (parallel) bus, blocking sync siblings (deadline window, delivery delayed by blocking stretches), clean-up dispatch, user-raised TimeoutError, zero / negative timeouts (events count as touched: must complete with TimeoutError results)',
     'C11': 'typed events with returned exceptions; unhashable / two-argument / chained exception objects; raise instants enumerated against a sibling\'s awaited child',
     'C13': 'forwarded in-flight events under small limits, handler-less events',
     'C14': 'stop() programs (dispatch to a stopping / stopped bus from handlers, forwards and actors); an event not in the queue when dispatch() returns counts as dropped',
     'C15': 'timeout programs, in-handler awaits bounded by asyncio.wait_for placed at every instant, two concurrent callers (one leaving early); callers still blocked after W silent seconds are recorded before the harness probes',
-    'C16': 'stop(clear=True), double and two-bus stops, stop() from inside handlers, parallel buses, asyncio.Runner exit',
+    'C16': 'stop(clear=True), double and two-bus stops, stop() from inside handlers, parallel buses, asyncio.Runner exit, raw cancellation of the run-loop task between the thread hand-offs of its own WAL append',
     'C17': 'payloads without a JSON encoding (non-UTF-8 bytes, arbitrary objects, lone surrogates) count as failing writes',
     'C19': 'timeout=None; 2-4 overlapping calls of one decorated function / method, each against its own timetable',
     'C20': 'an unrelated class with the same __name__, a second function naming the same semaphore, 70 instance-scoped keys, cancellation k loop iterations after the victim\'s own acquisition instant with the load probe due',
